@@ -150,6 +150,9 @@ def apply_rules(facts, rep, f, label):
             c = E[cmp_[0]]
             ok_order = bool(calls) and calls[0] < cmp_[0]
             init, cur = held_values(f, E, cmp_[0])
+            other_members = {}
+            for fl in (facts.cls(f.d.get('classfull')) or {}).get('fields', []):
+                if fl['name'] not in ('m_val', 'm_eq', 'm_subject'): other_members[fl['name']] = fl['name']; other_members['$field:this.' + fl['name']] = fl['name']
             got = [repr(x) for x in c.args]
             inst = f'{label}: eq(copy taken before the callable, current value)'
             changed = repr(init) != repr(cur)
@@ -158,6 +161,9 @@ def apply_rules(facts, rep, f, label):
                 rep.violation('OB.1', inst, c.site, 'the comparison does not use a copy of the value taken before the callable ran' + f' (both operands are {got[0]})', key=f'OB.1|old|{strip_targs(f.qname)}', fn=f.name)
             elif not ok_order and calls:
                 rep.violation('OB.1', inst, c.site, 'the comparison runs before the callable: the change is never seen', key=f'OB.1|old|{strip_targs(f.qname)}', fn=f.name)
+            elif len(got) == 2 and changed and repr(cur) in got and any(g in other_members for g in got):
+                other = other_members[next(g for g in got if g in other_members)]
+                rep.violation('OB.1', inst, c.site, f'the current value is compared with the member {other}, not with a copy of the value taken before the callable ran: a change made earlier through value() / operator* shifts the baseline (an unchanged value notifies, a changed one may not)', key=f'OB.1|old|{strip_targs(f.qname)}', fn=f.name)
             else:
                 # class-type values: copies are not distinguishable by value; fall back to the shape `eq(local copy made before the callable, m_val)`
                 a0 = c.node.ns('args')[1] if c.node.ck == 'op' and len(c.node.ns('args')) >= 3 else None
